@@ -181,7 +181,9 @@ CHECKS = {
  "C09": dict(
     text="PROOF (coq/props/C09.v): algorithmic proofs about max_opset_policy itself - exactly one import per domain (sortedness "
          "invariant of the insertion), the imported version is the maximum required for the domain and is required by something, every "
-         "requirement is covered; default domain never below 14 in a returned model (validator AND by construction: "
+         "requirement is covered; the imports depend only on the SET of requirements (order of collection and repeats do not matter), the "
+         "alias ai.onnx never gets an import of its own and counts for the default domain, no domain is imported that nothing requires "
+         "(PolicyFacts.v); default domain never below 14 in a returned model (validator AND by construction: "
          "C09_default_domain_floor_by_construction, an accumulator-level invariant through compile); which nodes are handed to the converter (never "
          "another domain, never a node already at the imported version). CORRESPONDENCE: imports of model and functions (exact), set "
          "of conversion decisions (recorded by wrapping adapt_node) vs Adapt.decisions with the schema-difference table regenerated "
